@@ -25,7 +25,7 @@ class KeyMap:
             return ("<Ctrl-%s>" % key[2:],)
         elif key[1:] and key[:2] == "M-":
             return (
-                "<Esc+%s>" % key[2:],
+                "<Esc+%s>" % ("SPACE" if key[2:] == " " else key[2:]),
                 "<Meta-%s>" % key[2:],
             )
         elif key[0] == "F" and key[1:].isdigit():
